@@ -6,6 +6,7 @@
 #include "iogateway/PacketTunnelIOGateway.h"
 #include "iogateway/MiniPacketTunnelIOGateway.h"
 #include "iogateway/MessageIOGateway.h"
+#include "iogateway/RawDataMessageIOGateway.h"
 #include "dataio/PacketDataIO.h"
 #include "dataio/ByteBufferPacketDataIO.h"
 #include "dataio/PacketizedProxyDataIO.h"
@@ -49,18 +50,20 @@ public:
 };
 struct Recv : public AbstractGatewayMessageReceiver
 {
-   std::vector<std::pair<std::string, int> > got;
+   std::vector<std::pair<std::string, int> > got; bool rawChunks; Recv() : rawChunks(false) {}
    virtual void MessageReceivedFromGateway(const MessageRef & m, void * ud)
    {
-      const IPAddressAndPort * iap = (const IPAddressAndPort *) ud; ByteBufferRef b = m()->FlattenToByteBuffer();
+      const IPAddressAndPort * iap = (const IPAddressAndPort *) ud;
+      if (rawChunks) {const void * p; uint32 n; for (uint32 i=0; m()->FindData(PR_NAME_DATA_CHUNKS, B_RAW_TYPE, i, &p, &n).IsOK(); i++) got.push_back(std::make_pair(std::string((const char *)p, n), iap ? (int)iap->GetPort()-1000 : -1)); return;}
+      ByteBufferRef b = m()->FlattenToByteBuffer();
       got.push_back(std::make_pair(std::string((const char *)b()->GetBuffer(), b()->GetNumBytes()), iap ? (int)iap->GetPort()-1000 : -1));
    }
 };
 
-struct Cfg {bool mini, slave; uint32 mtu; uint8 level; int nsend; bool libTransport;};   // libTransport: the receiver reads through the library's own ByteBufferPacketDataIO instead of the harness transport
+struct Cfg {bool mini, slave; uint32 mtu; uint8 level; int nsend; bool libTransport; bool rawSlave;};   // rawSlave: the slave gateway is a RawDataMessageIOGateway, which turns one Message into one buffer per chunk   // libTransport: the receiver reads through the library's own ByteBufferPacketDataIO instead of the harness transport
 static AbstractMessageIOGatewayRef MakeTunnel(const Cfg & c, bool receiver)
 {
-   AbstractMessageIOGatewayRef sl; if (c.slave) {sl.SetRef(new MessageIOGateway); if (receiver) sl()->SetPacketRemoteLocationTaggingEnabled(false);}   // a packet-mode slave tags Messages with the sender's address by default: off, so received == sent
+   AbstractMessageIOGatewayRef sl; if (c.slave) {if (c.rawSlave) sl.SetRef(new RawDataMessageIOGateway); else sl.SetRef(new MessageIOGateway); if (receiver) sl()->SetPacketRemoteLocationTaggingEnabled(false);}   // a packet-mode slave tags Messages with the sender's address by default: off, so received == sent
    if (c.mini) {MiniPacketTunnelIOGateway * g = new MiniPacketTunnelIOGateway(sl, c.mtu); if (receiver == false) g->SetZLibCompressionLevel(c.level); return AbstractMessageIOGatewayRef(g);}
    return AbstractMessageIOGatewayRef(new PacketTunnelIOGateway(sl, c.mtu));
 }
@@ -140,7 +143,7 @@ extern "C" int vf_run_case(const uint8_t * data, size_t size)
    if (size < 8) return 0;
    BS bs(data, size);
    Cfg c; c.mini = bs.flip(); const uint8_t faultMode = bs.u8()%4;   // 0 fault-free, 1 sampled faults, 2 exhaustive plans (short sequences), 3 fault-free with would-block writes
-   c.slave = bs.flip(); const uint8_t nsb = bs.u8(); c.nsend = 1+nsb%3; c.libTransport = ((nsb/3)%2 == 1); const bool streamMode = ((nsb/6)%8 == 7)&&((faultMode == 0)||(faultMode == 3));
+   c.slave = bs.flip(); const uint8_t nsb = bs.u8(); c.nsend = 1+nsb%3; c.libTransport = ((nsb/3)%2 == 1); c.rawSlave = false; const bool streamMode = ((nsb/6)%8 == 7)&&((faultMode == 0)||(faultMode == 3));
    {const uint8_t k = bs.u8()%6; c.mtu = c.mini ? ((k == 0) ? 17 : ((k == 1) ? bs.range(17, 60) : ((k == 2) ? 1500 : bs.range(60, 1500)))) : ((k == 0) ? 25 : ((k == 1) ? bs.range(25, 60) : ((k == 2) ? 1500 : bs.range(26, 400))));}
    c.level = c.mini ? (uint8)("\0\1\x09\6"[bs.u8()%4]) : 0;
    const bool blocks = (faultMode == 3)||((faultMode == 1)&&(bs.flip()));
@@ -149,6 +152,7 @@ extern "C" int vf_run_case(const uint8_t * data, size_t size)
    const uint32 fakeMtu = MUSCLE_MAX_PAYLOAD_BYTES_PER_UDP_ETHERNET_PACKET; const bool f25 = vf::AllowKnown("F25");
 
    if (streamMode) return RunStream(c, bs);
+   c.rawSlave = (c.slave)&&(c.mini == false)&&((nsb/48)%2 == 1);
    Net wire; AbstractMessageIOGatewayRef snd[3]; PktIO * sio[3];
    for (int i=0; i<c.nsend; i++)
    {
@@ -159,6 +163,15 @@ extern "C" int vf_run_case(const uint8_t * data, size_t size)
    const uint32 nm = 1+bs.u8()%((faultMode == 2) ? 3 : 6); size_t biggest = 0;
    for (uint32 k=0; k<nm; k++)
    {
+      if (c.rawSlave)
+      {
+         // a raw-data Message of 1-4 chunks: the slave gateway hands the tunnel one buffer per chunk, and the receiving slave delivers them as chunks again, in order
+         const int who = bs.u8()%c.nsend; MessageRef m = GetMessageFromPool(PR_COMMAND_RAW_DATA); const uint32 nchunks = 1+bs.u8()%4;
+         for (uint32 q=0; q<nchunks; q++) {const uint32 len = 1+bs.range(0, 150); std::string v(len, '\0'); uint32 x = bs.u8()+k*7+q; const bool same = bs.flip(); for (uint32 j=0; j<len; j++) {x = x*1664525u+1013904223u; v[j] = same ? (char)('A'+(k+q)%4) : (char)(x>>24);} (void) m()->AddData(PR_NAME_DATA_CHUNKS, B_RAW_TYPE, v.data(), len); sent[who].push_back(v); sentSet[who].insert(v); h = vf::HashStr(v, h^(uint64_t)who); if (v.size() > biggest) biggest = v.size();}
+         if (snd[who]()->AddOutgoingMessage(m).IsError()) vf::Fail("AddOutgoingMessage failed");
+         if (bs.flip()) for (int i=0; i<c.nsend; i++) (void) snd[i]()->DoOutput();
+         continue;
+      }
       const int who = bs.u8()%c.nsend; MessageRef m = GetMessageFromPool(bs.u8()%4);
       const uint8_t lk = bs.u8()%4; uint32 len = (lk == 0) ? bs.range(0, 10*c.mtu) : ((lk == 1) ? 0 : bs.range(0, 60)); if (len > 12000) len = 12000;
       if ((c.slave)&&(f25 == false)&&(len+64 > fakeMtu)) {len = bs.range(0, 200); vf::Excluded("F25");}
@@ -201,7 +214,7 @@ extern "C" int vf_run_case(const uint8_t * data, size_t size)
                if ((act[i] == 3)&&(i+1 < n)) {arrived.push_back(packets[i+1]); arrived.push_back(packets[i]); i++; continue;}
                arrived.push_back(packets[i]);
             }
-            Recv recv; Deliver(c, arrived, &bs, recv); CheckSafety(c, recv, sentSet, "exhaustive fault plan");
+            Recv recv; recv.rawChunks = c.rawSlave; Deliver(c, arrived, &bs, recv); CheckSafety(c, recv, sentSet, "exhaustive fault plan");
             if (plan == 0) {for (int s=0; s<c.nsend; s++) {std::vector<std::string> g; for (size_t i=0; i<recv.got.size(); i++) if (recv.got[i].second == s) g.push_back(recv.got[i].first); if (g != sent[s]) vf::Fail("fault-free plan: sender %d sent %zu (fitting) Messages, receiver got %zu (mini=%d mtu=%u slave=%d level=%u)", s, sent[s].size(), g.size(), (int)c.mini, c.mtu, (int)c.slave, c.level);}}
             plans++;
          }
@@ -223,7 +236,7 @@ extern "C" int vf_run_case(const uint8_t * data, size_t size)
          if ((f == 3)&&(arrived.size())) {arrived.push_back(arrived[bs.u8()%arrived.size()]); arrived.push_back(p); hit = true; continue;}   // replay of an old packet
          arrived.push_back(p);
       }
-      Recv recv; Deliver(c, arrived, &bs, recv); CheckSafety(c, recv, sentSet, (faultMode == 1) ? "sampled fault plan" : "fault-free");
+      Recv recv; recv.rawChunks = c.rawSlave; Deliver(c, arrived, &bs, recv); CheckSafety(c, recv, sentSet, (faultMode == 1) ? "sampled fault plan" : "fault-free");
       if (faultMode != 1)
       {
          for (int s=0; s<c.nsend; s++)
@@ -238,7 +251,7 @@ extern "C" int vf_run_case(const uint8_t * data, size_t size)
       plans = 1;
    }
    vf::Count(c.mini ? "mini_tunnel" : "packet_tunnel"); static const char * const FM[] = {"mode_fault_free", "mode_sampled_faults", "mode_exhaustive_plans", "mode_fault_free_with_would_block_writes"}; vf::Count(FM[faultMode]);
-   if (c.slave) vf::Count("with_slave_gateway"); if (c.libTransport) vf::Count("receiver_on_library_ByteBufferPacketDataIO"); if (wrap) vf::Count("message_id_wraparound"); if (c.nsend > 1) vf::Count("several_senders"); vf::Count("packets", packets.size()); vf::Count("would_block_writes", blocked);
+   if (c.slave) vf::Count("with_slave_gateway"); if (c.rawSlave) vf::Count("with_raw_data_slave_gateway_several_buffers_per_message"); if (c.libTransport) vf::Count("receiver_on_library_ByteBufferPacketDataIO"); if (wrap) vf::Count("message_id_wraparound"); if (c.nsend > 1) vf::Count("several_senders"); vf::Count("packets", packets.size()); vf::Count("would_block_writes", blocked);
    if (nontrivial) {vf::NonTrivial(vf::HashMix(h, faultMode)); if (vf::WantSample()) {char b[200]; snprintf(b, sizeof(b), "%s mtu=%u slave=%d level=%u senders=%d: %u Messages (largest %zu bytes) in %zu packets, %s, %llu plan(s), %u would-block writes", c.mini?"mini tunnel":"packet tunnel", c.mtu, (int)c.slave, c.level, c.nsend, nm, biggest, packets.size(), FM[faultMode], (unsigned long long)plans, blocked); vf::Sample(b);}}
    return 0;
 }
